@@ -67,7 +67,7 @@ Print Assumptions C01_statements_refine_skeleton.
 (** every rule function of the file, called in any state, returns what the machine's rule function returns:
     same verdict, position, tokens, memo table, text register; it crashes only where the machine says so *)
 Theorem C01_rule_functions_are_the_machine :
-  forall g ptx ast memo inline asu buf penv, deep_table_b g ast memo inline asu = true ->
+  forall g ptx ast memo inline asu buf penv, deep_table_b g inline = true ->
   forall n r m res,
     o_inline (emit_opts g ast memo inline asu) r = false -> reached (count_rules g) r = true ->
     (exists b, nth_error g r = Some b /\ b <> RNil) ->
@@ -80,7 +80,7 @@ Print Assumptions C01_rule_functions_are_the_machine.
 Theorem C01_generated_code_is_peg :
   forall g ptx buf penv, good_grammar g -> good_buf buf -> good_switches g ->
   forall memo inline n r st0 rr,
-    gen_deep_b g inline = true -> slot_ok g inline r -> reached (count_rules g) r = true ->
+    deep_table_b g inline = true -> slot_ok g inline r -> reached (count_rules g) r = true ->
     peg_parse g ptx buf penv (S n) r = Some rr ->
     exists res, xcall buf penv (mk_opts true memo inline g) (gen_fn g ptx inline) r (reset st0) res /\
       match rr with
@@ -93,6 +93,6 @@ Print Assumptions C01_generated_code_is_peg.
 (** non-vacuity: the side condition holds for the example grammar under both settings and for the grammar
     peg's own front end is generated from (-inline -switch), and the first rule of the example has a function of more than four statements *)
 Example C01_code_nonvacuous :
-  gen_deep_b ex_g false = true /\ gen_deep_b ex_g true = true /\ gen_deep_b pegpeg_is true = true /\
+  deep_table_b ex_g false = true /\ deep_table_b ex_g true = true /\ deep_table_b pegpeg_is true = true /\
   match gen_fn ex_g ex_ptx true 0 with Some body => Nat.ltb 4 (length body) | None => false end = true.
 Proof. split; [vm_compute; reflexivity|]. split; [vm_compute; reflexivity|]. split; vm_compute; reflexivity. Qed.
